@@ -21,3 +21,7 @@ Lemma shipped_v1_validates : p_validates (fe_v1 KReg) = true. Proof. reflexivity
 Lemma shipped_response_type : Generated.RegProto.response_type = RESPONSE_TYPE.
 Proof. reflexivity. Qed.
 
+
+(* appv2 chooses its timestamps with the wait loop + bump *)
+Lemma shipped_v2_loop : forall k, exists n, p_ts (fe_v2 k) = TsLoop n true.
+Proof. intros [|]; eexists; reflexivity. Qed.
